@@ -4,7 +4,9 @@
 //!
 //!   vh replay <module> <cases.ndjson>          spec -> impl
 //!   vh drive  <module> --seed S --n N --out F  impl -> spec (records a trace)
+mod certchain;
 mod common;
+mod pki;
 mod der;
 mod manifest;
 mod prefixlaws;
@@ -41,6 +43,8 @@ fn main() {
         ("replay", "rtrwire") => rtrwire::replay(rest),
         ("replay", "rrdp") => rrdp::replay(rest),
         ("replay", "manifest") => manifest::replay(rest),
+        ("replay", "certchain") => certchain::replay(rest),
+        ("drive", "certchain") => certchain::drive(rest),
         ("drive", "manifest") => manifest::drive(rest),
         ("drive", "rrdp") => rrdp::drive(rest),
         ("drive", "rtrwire") => rtrwire::drive(rest),
